@@ -158,6 +158,39 @@ def _tree_matches(sc, res, st):
     return not any(o["op"] in ("write", "rm", "mv") for o in ops[:idx]) and not any(o["op"] == "create" and o.get("sf") for o in ops[:idx])
 
 
+def same_destination_cases():
+    """two histories flattened into the SAME destination folder on the same day: each packing list speaks for its own
+    history only - its pattern list is that history's, and a recorded file altered afterwards fails verify -pl"""
+    import os, glob
+    fails = []
+    with rt.tempdir("c18d_") as d:
+        a, b, dest = os.path.join(d, "cardA"), os.path.join(d, "cardB"), os.path.join(d, "lists")
+        rt.mk(a, {"x.mov": "x", "scratch.bak": "s"})
+        rt.mk(b, {"y.mov": "y", "keep.bak": "k", "sub/z.bak": "z"})
+        os.makedirs(dest)
+        rt.run("create", [a, "-h", "md5", "-i", "*.bak"], "2026-03-01 12:00:01")
+        rt.run("create", [b, "-h", "md5"], "2026-03-01 12:00:02")
+        x1 = rt.run("flatten", [a, dest], "2026-03-01 12:00:03")
+        x2 = rt.run("flatten", [b, dest], "2026-03-01 12:00:04")
+        pls = sorted(glob.glob(os.path.join(dest, "*", "packinglist_cardB_*.mhl")))
+        if x1.exit != 0 or x2.exit != 0 or len(pls) != 1:
+            return [{"what": f"two flatten runs into one destination: exits {x1.exit}, {x2.exit}, packing lists of the second {pls}", "replay": {"case": "same destination"}}]
+        m = rt.read_manifest(pls[0])
+        if "*.bak" in m["ignore"]:
+            fails.append({"what": f"the packing list of cardB (flattened into the folder that already holds cardA's) lists the patterns {m['ignore']}; '*.bak' belongs to cardA's history only", "replay": {"case": "same destination"}})
+        got = sorted(r["path"] for r in m["records"])
+        if got != ["keep.bak", "sub/z.bak", "y.mov"]:
+            fails.append({"what": f"the packing list of cardB records {got}", "replay": {"case": "same destination"}})
+        x = rt.run("verify", [b, "-pl", pls[0]], "2026-03-01 12:00:05")
+        if x.exit != 0:
+            fails.append({"what": f"verify -pl of the unchanged cardB exits {x.exit}", "replay": {"case": "same destination"}})
+        open(os.path.join(b, "keep.bak"), "w").write("ALTERED")
+        x = rt.run("verify", [b, "-pl", pls[0]], "2026-03-01 12:00:06")
+        if x.exit != 11:
+            fails.append({"what": f"verify -pl after altering the recorded keep.bak of cardB exits {x.exit}, expected 11 (the list was written into a folder that already held the packing list of a history ignoring *.bak)", "replay": {"case": "same destination"}})
+    return fails
+
+
 def run(ctx):
     scs = [build(ctx.seed * 1000403 + i) for i in range(ctx.scale(120, 2000))]
     # packing lists whose number of records sits on round numbers (writers that batch their output)
@@ -174,7 +207,7 @@ def run(ctx):
             ops += [{"op": "rm", "path": "a.txt"}, {"op": "create", "at": "", "h": ["md5"], "now": "2026-03-01 12:00:02"}]
         ops += [{"op": "flatten", "at": ""}, {"op": "verifypl", "at": ""}]
         scs.insert(0, {"profile": "c18-copy", "root": "root", "tree": {"a.txt": "same bytes", "k.txt": "k", "s/": None}, "ops": ops})
-    return _scn.run_scn(ctx, scs, monitor, extra_fails=largefiles.extra(ctx), assumptions=["histories without nested child histories and without renames (the property's domain)"])
+    return _scn.run_scn(ctx, scs, monitor, extra_fails=largefiles.extra(ctx) + same_destination_cases(), assumptions=["histories without nested child histories and without renames (the property's domain)"])
 
 
 def replay(ctx, path):
